@@ -122,6 +122,19 @@ def sign_check(rng):
         return "sign_message output does not verify"
     if Client(seed).sign(msg) != sig:
         return "Client.sign differs from sign_message"
+    # the optional encoder argument: the result is the encoding of the same 64-byte signature (decoded independently)
+    import base64
+    import nacl.encoding as ne
+    for enc, dec in ((ne.HexEncoder, bytes.fromhex), (ne.Base64Encoder, base64.b64decode), (ne.Base32Encoder, base64.b32decode),
+                     (ne.URLSafeBase64Encoder, base64.urlsafe_b64decode), (ne.Base16Encoder, lambda t: bytes.fromhex(t.decode())),
+                     (ne.RawEncoder, bytes)):
+        try:
+            got = sign_message(msg, bytes(sk) + pk, enc)
+            raw = dec(got) if enc is not ne.HexEncoder else bytes.fromhex(got.decode())
+        except Exception as ex:
+            return f"sign_message with {enc.__name__}: {type(ex).__name__}"
+        if raw != sig:
+            return f"sign_message with {enc.__name__} is not the encoding of the signature"
     bad = bytearray(sig)
     bad[rng.randrange(64)] ^= 1 << rng.randrange(8)
     if verify_sign(pk, msg, bytes(bad)):
